@@ -17,7 +17,6 @@ use crate::model::{self, Notes};
 use crate::ops::{apply_listener, pretty_op, Case, Op, N};
 use crate::recog::{normalise, Recog, Utf8Ref};
 use crate::snap::*;
-use crate::tables::is_valid_colour;
 
 // ------------------------------------------------------------------------------------------
 // panic capture
@@ -241,12 +240,12 @@ pub fn invariant(s: &Screen, snap: &Snap) -> Option<String> {
     }
     for (y, row) in snap.cells.iter().enumerate() {
         for (x, c) in row.iter().enumerate() {
-            if !is_valid_colour(&c.fg) || !is_valid_colour(&c.bg) {
+            if !c.fg.is_valid() || !c.bg.is_valid() {
                 return Some(format!("cell (x={},y={}) colour fg={:?} bg={:?}", x, y, c.fg, c.bg));
             }
         }
     }
-    if !is_valid_colour(&snap.attr.fg) || !is_valid_colour(&snap.attr.bg) {
+    if !snap.attr.fg.is_valid() || !snap.attr.bg.is_valid() {
         return Some(format!("cursor colour fg={:?} bg={:?}", snap.attr.fg, snap.attr.bg));
     }
     None
